@@ -149,7 +149,7 @@ def try3_configs(N, patterns=("ttt", "tat")):
 
 class Built:
     __slots__ = ("sk", "tries", "layout", "orphan", "share_handler", "code", "needs_pool", "ins", "slot_off", "rtries",
-                 "dex_tries", "dex_handlers", "size", "payload_of", "payloads", "start_off", "_sizes", "_slot_units", "edit")
+                 "dex_tries", "dex_handlers", "size", "payload_of", "payloads", "start_off", "_sizes", "_slot_units", "edit", "hperm")
 
     def witness(self):
         w = {"sk": [list(s) for s in self.sk]}
@@ -163,12 +163,16 @@ class Built:
             w["orphan"] = list(self.orphan)
         if getattr(self, "edit", None):
             w["edit"] = self.edit
+        if getattr(self, "hperm", 0):
+            w["hperm"] = self.hperm
         return w
 
 
 def from_witness(w):
     b = build(norm(w["sk"]), tuple(tuple(t) for t in w.get("tries", ())), w.get("layout", "aligned"),
               tuple(w["orphan"]) if w.get("orphan") else None, bool(w.get("share_handler")))
+    if b is not None and w.get("hperm"):
+        b = retry(b, b.tries, b.share_handler, w["hperm"])
     if b is not None and w.get("edit"):
         b.edit = w["edit"]
     return b
@@ -395,6 +399,7 @@ def build(sk, tries=(), layout="aligned", orphan=None, share_handler=False):
     m._sizes = sizes
     m._slot_units = slot_off
     m.edit = None
+    m.hperm = 0
     set_tries(m, tries, share_handler)
     return m
 
@@ -429,15 +434,28 @@ def set_tries(m, tries, share_handler=False):
         if ca is not None:
             hl.append((None, ca * 2))
         m.rtries.append((s_u * 2, e_u * 2, hl))
+    # the encoded_catch_handler_list may hold its entries in ANY order (try items refer to them by offset): hperm = k
+    # selects the k-th permutation (lexicographic) of the emitted handler entries; None/0 = order of first use
+    k = getattr(m, "hperm", None) or 0
+    nh = len(m.dex_handlers)
+    if k:
+        perms = list(itertools.permutations(range(nh)))
+        if k >= len(perms):
+            return None
+        perm = perms[k]                                 # new position j holds old handler perm[j]
+        newpos = {old: j for j, old in enumerate(perm)}
+        m.dex_handlers = [m.dex_handlers[o] for o in perm]
+        m.dex_tries = [(a, c, newpos[h]) for a, c, h in m.dex_tries]
     return m
 
 
-def retry(m, tries, share_handler=False):
-    """A copy of Built `m` (same code bytes) with another try table."""
+def retry(m, tries, share_handler=False, hperm=0):
+    """A copy of Built `m` (same code bytes) with another try table (None if hperm exceeds the number of permutations)."""
     c = Built()
     for k in Built.__slots__:
         if hasattr(m, k):
             setattr(c, k, getattr(m, k))
+    c.hperm = hperm
     return set_tries(c, tries, share_handler)
 
 
@@ -496,3 +514,69 @@ def shipped_file(repo, name):
         return zipfile.ZipFile(os.path.join(base, a)).read(n)
     with open(os.path.join(base, name), "rb") as f:
         return f.read()
+
+
+# --------------------------------------------------------------------------------------------------- field maxima
+def big_methods():
+    """Fixed representatives at the large end of the size / offset / count fields: [(name, code bytes, tries, handlers)]."""
+    out = []
+    for kind in ("packed", "sparse"):
+        a = D.Asm()
+        sw, t0, t1, t2 = D.Label("sw"), D.Label("t0"), D.Label("t1"), D.Label("t2")
+        pay = D.Label("pay")
+        a.label(sw)
+        a.ins(kind + "-switch", 0, pay)
+        a.label(t0); a.ins("const/4", 0, 0)
+        a.label(t1); a.ins("div-int", 0, 0, 0)
+        a.label(t2); a.ins("return-void")
+        a.align4()
+        a.label(pay)
+        tg = [(t0, t1, t2, sw)[i % 4] for i in range(500)]
+        if kind == "packed":
+            a.packed(sw, -250, tg)
+        else:
+            a.sparse(sw, [7 * i - 1000 for i in range(500)], tg)
+        out.append((kind + "-500-cases", a.assemble()[0], [], []))
+    # offsets beyond 16 bits: goto/32 over 70000 nops, if-eqz with the most negative 16-bit offset, a try range with
+    # insn_count 65535 and a handler address > 65535
+    a = D.Asm()
+    L, back = D.Label("L"), D.Label("back")
+    a.ins("goto/32", L)
+    nn = 70000
+    for i in range(nn):
+        if i == nn - 32768:
+            a.label(back)
+        a.ins("nop")
+    a.label(L)
+    a.ins("if-eqz", 0, back)
+    a.ins("return-void")
+    code = a.assemble()[0]
+    assert (L.off - back.off) // 2 == 32768
+    out.append(("far-offsets", code, [(3, 65535, 0)], [G.Handler([("LE0;", L.off // 2)], L.off // 2 + 2)]))
+    # fill-array-data with an 80000-byte payload, referenced from behind it
+    a = D.Asm()
+    S2, P2 = D.Label("S"), D.Label("P")
+    a.ins("goto/32", S2)
+    a.align4()
+    a.label(P2)
+    a.array(8, bytes(range(256)) * 312 + bytes(128))
+    a.label(S2)
+    a.ins("fill-array-data", 0, P2)
+    a.ins("return-void")
+    out.append(("array-80000-bytes", a.assemble()[0], [], []))
+    return out
+
+
+def wrap_raw(code, tries=(), handlers=(), name="big"):
+    m = G.Method(name, "V", (), G.ACC_PUBLIC | G.ACC_STATIC, G.Code(1, 0, 0, code, list(tries), list(handlers)))
+    return G.build(G.Dex([G.Class(CLS, dmethods=[m])]))
+
+
+def decoy_dex():
+    """A fixed DIFFERENT input under the SAME names (class LT;, methods m0..m3, callee, field f): analysed before every
+    judged batch, results ignored -- state kept per class / method name, method index or code offset would surface."""
+    bs = [build((("K", 2, 3), ("T",), ("I", 0)), ((0, 1, "t", 2), (2, 3, "a", 0))),
+          build((("A",), ("S", 0, 0), ("G", 1)), ((1, 1, "b", 0, 3),), "first"),
+          build((("X",),)),
+          build((("V",), ("C",), ("F",), ("N",)))]
+    return wrap(bs)
